@@ -16,11 +16,17 @@ CONFIG = {
         # round 4 (fix 2aa10ca): the events Sign / SetUnsigned / SetUnsignedField return are the same event (struct, fields, ID,
         # room ID, auth references)
         "V.C03.signWith_same", "V.C03.setUnsigned_same", "V.C03.setUnsignedField_same", "V.C03.derived_same_accessors",
+        # second audit round (defect P5): Build refuses members that repeat a name at any depth (the raw content / unsigned of the
+        # proto-event) - what the untrusted constructors refuse; build_roundtrip never had a hypothesis about duplicate names, the CODE
+        # returned such events
+        "V.C03.build_refuses_duplicate_members", "V.C03.untrusted_refuses_duplicate_members",
     ],
     "rule": "event.build: EventBuilder.Build itself against its model (VModel.EventBuild.build: struct marshalling with omitempty, "
             "format-1 references incl. the partial base64 decode of eventHashFromEventID, content hash, signEvent with the signature "
             "computed independently by the harness, EnforcedCanonicalJSON, trusted parse, CheckFields; math/rand seeded so that "
-            "format-1 IDs are reproducible): full accessor tuple + canonical JSON compared. Then every event comes from EventBuilder.Build with a real ed25519 key (16 versions x 14 event types x state key absent / '' / "
+            "format-1 IDs are reproducible): full accessor tuple + canonical JSON compared; 6% of the proto-events carry a content / unsigned that "
+            "repeats a member name (spelled the same or with an escape, top level or nested): Build must refuse them (err:badjson), and "
+            "event.buildrt (Build, then the result read back as UNTRUSTED input: ok / bad) runs on those and on a tenth of the others. Then every event comes from EventBuilder.Build with a real ed25519 key (16 versions x 14 event types x state key absent / '' / "
             "user / other x 0-4 prev / auth references x IntSafe contents x depths 0..2^53-1, optional unsigned / redacts). Property ops "
             "evaluate C03's relations on the real code and print a verdict vector, the specification stream is the all-true vector: "
             "event.roundtrip (untrusted / trusted-with-ID / headered re-parse give the same ID, type, sender, room, state key, content, "
